@@ -22,6 +22,15 @@ CHECKS = {
     "C04": ("bufsim", "deterministic simulation: seeded allocate/free/grow histories with injected storage-allocation failures and forced relocation, invariants + shadow bytes checked after every step", "Seeded exploration of allocator histories (tiny scopes sampled densely, plus deep walks) on both CPU buffer kinds and all alignment/grow-step configurations; every step checks bounds, alignment, disjointness and byte preservation against a shadow. Evidence, not proof: samples the history space.", "Trusted: the 150-line allocator specification and shadow-byte bookkeeping in sim/allocspec.py and sim/bufsim.py; numpy/bytearray semantics.", "DESIGN.md §3.1, §4 C04"),
     "C12": ("bufsim", "deterministic simulation: step-by-step refinement of the real allocator against an executable first-fit free-list specification over seeded histories", "Each allocate offset, each growth decision and each get_free() is compared with an executable first-fit specification after every step of seeded histories biased toward exact fills, empty free lists and merging frees. Behavioural observations only (offsets, capacity, get_free, exceptions).", "Trusted: sim/allocspec.py as the meaning of 'first fit'; growth amount deliberately unspecified; zero-size requests only checked for bounds/alignment.", "DESIGN.md §3.1, §4 C12"),
     "C13": ("bufsim", "deterministic simulation: shadow-buffer refinement of every CPU copy primitive, op by op, with held copies/views re-checked after later writes and relocations", "Every primitive is executed at seeded (offset,length) inside live regions of small and large buffers of both kinds; the whole buffer is compared with the expected image after each call; extracted copies and typed views are kept and re-checked across later steps (aliasing/independence).", "Trusted: numpy for the independent dtype-conversion expectation; mixed buffer kinds under one context are not generated (not a configuration ContextCpu produces).", "DESIGN.md §3.1, §4 C13"),
+    "C01": ("objsim", "deterministic simulation: seeded worlds of generated types constructed into relocating / fragmented / dirty storage, full read-back against a reference model after every step", "Every run generates a type schema over the whole grammar and constructs objects with every input form (plain data, ndarray incl. Fortran/strided, xobject, capacity, dimensions) at every placement into buffers that are being fragmented, dirtied and relocated (relocation fires inside constructors that allocate reference targets); every field/item/nested accessor and to_nplike/to_nparray is compared with the model after construction and again after every later step.", "Trusted: sim/model.py (value model) and numpy scalar conversion; type x value space is sampled (seeded), not enumerated; contents the input form does not define (Arr(n)) are not checked.", "DESIGN.md §3.2, §4 C01"),
+    "C03": ("objsim", "deterministic simulation: byte-diff of every buffer against the pre-step snapshot, with poisoned neighbours, after every construct/assign/bind/copy step", "Objects are built between live neighbours and harness-owned poisoned regions; after every step every changed byte must lie inside the extents allocated during the step or inside the allocation holding the addressed element; reported sizes are compared with the independent decoder's extent and with the reservation.", "Trusted: allocation log taken at the allocate seam; independent decoder (sim/layout.py) for extents.", "DESIGN.md §3.2, §4 C03"),
+    "C05": ("objsim", "deterministic simulation: an independent decoder of the documented layout is run over the raw bytes of every live object after every step of seeded histories", "A decoder written only from the documented format (no xobjects import) must recover from the raw bytes the value the library itself reads back, with every part on a slot boundary, size words equal to extents and stored dims/strides equal to the computed ones; checked after every mutation and relocation, not only after construction. Weak fit for the technique: simulation contributes placement and history, the type dimension is seeded generation.", "Trusted: sim/layout.py as the reading of Architecture.md / types.rst fixed in DESIGN.md §3.2; value comparison only where the library's own reading equals the model.", "DESIGN.md §3.2, §4 C05"),
+    "C06": ("objsim", "deterministic simulation: every kept constructor handle is compared with a view freshly rebuilt from (buffer, offset) after every step; writes alternate between both", "Value at every index, shape, strides and size of handle and rebuilt view are compared at every nesting level after every step (never consulting the model); histories drop handles, write through views and handles alternately, and relocate storage between taking and using a view.", "Trusted: nothing beyond the harness' reader (read_handle / handle_meta in sim/objsim.py).", "DESIGN.md §3.2, §4 C06"),
+    "C08": ("objsim", "deterministic simulation: histories over {construct, bind-to-existing/value/foreign/null, write-through-ref, write-through-original, allocate-until-growth} with relocation inside binds, aliasing model compared after every step", "The model holds references as Python references (aliasing by identity); after every step every reference must resolve inside its own buffer, inside a live allocation, to the location and member type of its model node, and all values (through references) must equal the model; buffers are grown and relocated throughout.", "Trusted: sim/model.py aliasing semantics as stated in the property; C typeid/member agreement is checked under C02.", "DESIGN.md §3.2, §4 C08"),
+    "C09": ("objsim", "deterministic simulation: copy-construction to same buffer / other buffer / other context inside histories that keep writing to source and copy, two separate models", "Equality at copy time, extent disjointness, reference targets resolving inside the copy's own buffer (same referent when the buffer is shared, duplicate otherwise); afterwards source and copy follow separate models under further writes, growth and relocation.", "Trusted: sim/model.py copy semantics as stated in the property.", "DESIGN.md §3.2, §4 C09"),
+    "C10": ("objsim", "deterministic simulation: long histories of leaf and whole-compound assignments through handles and rebuilt views interleaved with growth, whole-world model compared after every step", "After every assignment the whole world (every object, through handle, rebuilt view and decoder) is compared with a model changed at exactly that element, and the decoder's layout map (sizes, shapes, capacities, offsets) of every object must be unchanged.", "Trusted: sim/model.py; assignment of reference-bearing compounds is outside the property's alphabet and not generated.", "DESIGN.md §3.2, §4 C10"),
+    "C11": ("objsim", "deterministic simulation with misuse injection: operations that cannot be honoured are issued against objects with live neighbours; exception + whole-world unchanged checked", "Misuse catalogue (index outside shape, update of other length/shape, string or item too large, non-member union value, buffer/context mismatch, offset without buffer) injected into histories; an exception must be raised and every pre-existing object's value and bytes must be unchanged. Two recorded known findings (non-atomic compound updates) are replayed on every run and quarantined from random generation.", "Trusted: the catalogue's classification of what cannot be honoured (DESIGN.md §4 C11, §5 ambiguities).", "DESIGN.md §3.2, §4 C11"),
+    "C20": ("objsim", "deterministic simulation with restart injection: groups of handles are pickled and reloaded at arbitrary points, history continues on both sides against two models", "restart(group) at seeded points for groups sharing and not sharing buffers; restored objects must equal the model, be usable for further reads/writes/constructions, be independent of the original storage, and share buffers exactly as before; the restored buffer keeps working as an allocator (later allocations checked for overlap).", "Trusted: in-process pickle round trip (as in the property's observe_at); classes registered in an importable module.", "DESIGN.md §3.2, §4 C20"),
 }
 
 NOT_YET = "check not built yet in this revision (engine under construction, see DESIGN.md build order); will be claimed or given its final not-applicable reason when the engine lands"
